@@ -24,6 +24,37 @@ def kf1_pool():
             "nums": [gen.q(-3), gen.q(2)], "switch": [{"r": r2, "v": "x"}, {"r": r4, "v": ""}]}
 
 
+def random_pools(seed, n):
+    """seeded random DAG pools (thorough tier): every new node picks its children among ALL earlier nodes, so sharing is the norm"""
+    out = []
+    for k in range(n):
+        rnd = random.Random(seed * 1000 + k)
+        b = gen.HeapB()
+        vs = [b.var(nm) for nm in rnd.sample(["x", "y", "w"], rnd.choice((1, 2, 2, 3)))]
+        consts = [b.const(c) for c in rnd.sample([0, 1, 2, -1, 3], 2)] + [b.const(1, 2)]
+        for _ in range(rnd.randint(5, 9)):
+            pick = lambda: rnd.choice(vs) if rnd.random() < 0.4 else rnd.randint(1, len(b.h))
+            r = rnd.random()
+            if r < 0.25:
+                b.nary(rnd.choice(J.NARY), *[pick() for _ in range(rnd.choice((1, 2, 2, 3)))])
+            elif r < 0.5:
+                b.bin(rnd.choice(J.BIN), pick(), pick())
+            elif r < 0.7:
+                b.un(rnd.choice(J.UN), pick())
+            elif r < 0.88:
+                b.kun(rnd.choice(J.KUN), pick(), rnd.choice((1, 2, 3)))
+            else:
+                op = rnd.choice(J.BUN)
+                b.bun(op, pick(), rnd.choice([J.E_, gen.q(2)]))
+        comp = [i for i, nd in enumerate(b.h, 1) if nd["op"] not in ("Variable", "Constant")]
+        roots = comp[-3:]
+        names = sorted({nd["name"] for nd in b.h if nd["op"] == "Variable"})
+        pts = [{nm: rnd.choice([gen.q(-1), gen.q(0), gen.q(1), gen.q(2), gen.q(1, 2)]) for nm in names} for _ in range(3)]
+        out.append({"name": f"random{k}", "heap": b.h, "roots": roots, "points": pts, "vars": names + ["zz"], "nums": [gen.q(2), gen.q(0)],
+                    "switch": [{"r": roots[-1], "v": names[0]}]})
+    return out
+
+
 def all_calls(pool):
     h = pool["heap"]
     roots, vars_, npts, nnums = pool["roots"], pool["vars"], len(pool["points"]), len(pool["nums"])
@@ -265,7 +296,7 @@ def run(pid, tier, seed):
         kp = kf1_pool()
         # 1. the model, exhaustively (all pools in the thorough tier; a rotating subset in the quick tier) - TLC runs in parallel
         chosen = [] if REPLAY is not None else pools if not quick else [pools[(seed + k) % len(pools)] for k in ((0, 2, 5) if pid == "C09" else (1, 3) if pid == "C06" else (4,))]
-        trace_pools = pools + ([kp] if pid in ("C06", "C09") else [])
+        trace_pools = pools + ([kp] if pid in ("C06", "C09") else []) + ([] if quick or REPLAY is not None else random_pools(seed, 24))
         sim_pools = [] if REPLAY is not None else [p for p in pools] if not quick else [pools[(seed + k) % len(pools)] for k in (0, 3, 6, 7)]
         with ThreadPoolExecutor(max_workers=4) as tp:
             f_model = [(pool, tp.submit(model_check, pool, work, "Smoothmath.cfg", False, 6)) for pool in chosen]
